@@ -35,6 +35,7 @@ ASSUMPTIONS = ["ENU tracks, z = 0, strictly increasing unique timestamps 3 s apa
 N_VARIANTS = 4
 
 OBLIGATIONS = {
+    "far_from_the_origin": "a track at projected-metre magnitudes (x 6.5e5, y 6.9e6) with decimetre detail was simplified",
     "numpy_scalar_coordinates": "a track whose coordinates are numpy.float64 scalars was simplified",
     "second_call_in_a_row": "a simplification was judged right after another one in the same process",
     "closed_loop": "first and last positions coincide (n >= 3)",
@@ -74,13 +75,22 @@ def _fields(t):
     return (t.year, t.month, t.day, t.hour, t.min, t.sec, t.ms)
 
 
-def _mk_track(variant, ptsl, ctype="float"):
+FAR = (652000.0, 6862000.0, 0.125)     # projected-metre magnitudes, decimetre detail (exact in binary64, not in binary32)
+
+
+def _pt(variant, p, frame="near"):
+    if frame == "far":
+        return (FAR[0] + FAR[2] * p[0], FAR[1] + FAR[2] * p[1])
+    return alpha.xy(variant, p[0], p[1])
+
+
+def _mk_track(variant, ptsl, ctype="float", frame="near"):
     """ctype: the scalar type the coordinates are stored with (a track built from numpy arrays carries numpy scalars)."""
     t0 = alpha.t0(variant)
     conv = {"float": float, "np.float64": np.float64, "np.float32": np.float32}[ctype]
     obs = []
     for k, p in enumerate(ptsl):
-        x, y = alpha.xy(variant, p[0], p[1])
+        x, y = _pt(variant, p, frame)
         obs.append(Obs(ENUCoords(conv(x), conv(y), conv(0.0)), alpha.obstime(t0 + DT * k)))
     return Track(obs)
 
@@ -106,20 +116,23 @@ def _classify(ptsl, ctx):
     return rep
 
 
-def check_simplify(variant, ptsl, tol_l, algo, ctx, rep=None, ctype="float"):
+def check_simplify(variant, ptsl, tol_l, algo, ctx, rep=None, ctype="float", frame="near"):
     """simplify(track, tolerance, mode) on one lattice track.  tol_l is the tolerance in lattice units."""
     ptsl = [tuple(p) for p in ptsl]
     case = {"op": "simplify", "variant": variant, "pts": [list(p) for p in ptsl], "tol": tol_l, "algo": algo}
     if ctype != "float":
         case["ctype"] = ctype
         ctx.oblige("numpy_scalar_coordinates")
+    if frame != "near":
+        case["frame"] = frame
+        ctx.oblige("far_from_the_origin")
     if rep is None:
         rep = len(set(ptsl)) < len(ptsl)
     ctx.case(rep)
     n = len(ptsl)
-    tol = tol_l * alpha.scale(variant)
-    pts = [alpha.xy(variant, p[0], p[1]) for p in ptsl]
-    track = _mk_track(variant, ptsl, ctype)
+    tol = tol_l * (FAR[2] if frame == "far" else alpha.scale(variant))
+    pts = [_pt(variant, p, frame) for p in ptsl]
+    track = _mk_track(variant, ptsl, ctype, frame)
     stamp = {_fields(track[k].timestamp): k for k in range(n)}
 
     if algo == "douglas_peucker" and n >= 3 and ptsl[0] != ptsl[-1]:
@@ -209,7 +222,8 @@ def replay(case, ctx):
     if case.get("op") == "after":
         f, g = case["first"], case["second"]
         return check_after(case["variant"], (f[0], f[1], f[2]), (g[0], g[1], g[2]), ctx)
-    check_simplify(case["variant"], case["pts"], case["tol"], case["algo"], ctx, ctype=case.get("ctype", "float"))
+    check_simplify(case["variant"], case["pts"], case["tol"], case["algo"], ctx, ctype=case.get("ctype", "float"),
+                   frame=case.get("frame", "near"))
 
 
 def probe():
@@ -294,6 +308,8 @@ def run_shard(shard, ctx):
                     check_simplify(v, ptsl, tol, algo, ctx, rep)
                     if n <= NUMPY_NMAX:           # the same track with its coordinates stored as numpy scalars
                         check_simplify(v, ptsl, tol, algo, ctx, rep, ctype="np.float64")
+                        # ... and far from the origin (6.9e6 m) with a lattice step of 12.5 cm
+                        check_simplify(v, ptsl, tol, algo, ctx, rep, frame="far")
             done += 1
             if done == 7:
                 ctx.sample({"track": [list(p) for p in ptsl], "tolerances_lattice_units": tols, "algorithms": algos, "variant": v})
